@@ -25,6 +25,30 @@ FAMILIES: Dict[str, Dict[str, Any]] = {
                        "PFailureReported", "PNoNoticeForNotices", "PLoggerWaitedFor", "PAckExactlyOnce",
                        "PAckAddressed", "PAckCopiedToLoggers", "PNoAckOtherwise"],
     },
+    "Failures": {
+        "module": "MC_Failures",
+        "const": dict(REAL, TimingOn="TRUE", Modes='{"inline", "deferred"}', Conns='{"a", "b", "c", "d"}',
+                      MaxQ=1, MaxDeaths=2, MaxEnv=2, TickSteps="{}", MaxNow=0, AllowOpen="FALSE",
+                      AllowFin="TRUE", AllowRst="FALSE", GenDepth=100, AnyW="TRUE"),
+        "subst": {"Setup": "FSetup", "Alpha": "FAlpha"},
+        "quick": dict(MaxEnv=1),
+        "gen": dict(MaxEnv=4, MaxQ=1),
+        "invariants": ["IUniqueIds"],
+        "properties": ["PRoutingExact", "PSeqGapFree", "PNoTrace", "PClosedAtMostOnce", "POneClosedNotice",
+                       "PFailureReported", "PNoNoticeForNotices", "PLoggerWaitedFor", "PAckExactlyOnce",
+                       "PAckAddressed", "PAckCopiedToLoggers", "PNoAckOtherwise"],
+    },
+    "FailuresDeferred": {
+        "module": "MC_Failures",
+        "const": dict(REAL, TimingOn="TRUE", Modes='{"deferred"}', Conns='{"a", "b", "c", "d"}',
+                      MaxQ=1, MaxDeaths=2, MaxEnv=2, TickSteps="{}", MaxNow=0, AllowOpen="FALSE",
+                      AllowFin="TRUE", AllowRst="FALSE", GenDepth=100, AnyW="TRUE"),
+        "subst": {"Setup": "FSetup", "Alpha": "FAlpha"},
+        "quick": dict(MaxEnv=1),
+        "gen": dict(MaxEnv=4, MaxQ=1),
+        "invariants": [],
+        "properties": ["PTotalOrder", "PRoutingExact", "PFailureReported", "POneClosedNotice"],
+    },
     "Identity": {
         "module": "MC_Identity",
         "const": dict(MaxModules=6, DynStart=3, MaxHosts=5, MaxMsgTypes=10000, TrafficChunk=64, MaxActive=256,
